@@ -27,7 +27,7 @@ def typed(H, name, src, t, k, defines=(), **kw):
     return H(name, src, gen=GEN(t), defines=['-DDRV="drv/%s.h"' % t, SY[k]] + list(defines),
              exclude=ex, roots=['asn_DEF_' + t], **kw)
 
-ALL_TYPES = ['T_Seq', 'T_SeqX', 'T_SeqX1', 'T_Cho', 'T_SeqOf', 'T_SetOf', 'T_Set', 'T_Int', 'T_Int8', 'T_IntR', 'T_Int16', 'T_Int17', 'T_IntOne', 'T_IntX', 'T_IntSemi', 'T_IntNeg', 'T_IntU32', 'T_Bool', 'T_Null', 'T_Enum', 'T_EnumX', 'T_Oct', 'T_OctF', 'T_OctU', 'T_Bits', 'T_IA5', 'T_Oid']
+ALL_TYPES = ['T_Seq', 'T_SeqX', 'T_SeqX1', 'T_Cho', 'T_SeqOf', 'T_SetOf', 'T_Set', 'T_Int', 'T_Int8', 'T_IntR', 'T_Int16', 'T_Int17', 'T_IntOne', 'T_IntX', 'T_IntSemi', 'T_IntNeg', 'T_IntU32', 'T_Bool', 'T_Null', 'T_Enum', 'T_EnumX', 'T_Oct', 'T_OctF', 'T_OctU', 'T_Bits', 'T_IA5', 'T_Oid', 'T_Nest']
 NO_OER = {'T_Set'}
 NO_UPER = {'T_Set'}     # asn1c has no PER/OER codec for SET (asn_OP_SET slots are 0)
 # UPER layouts whose bit offsets depend on the value (variable-length fields, value-dependent presence after a
@@ -35,7 +35,7 @@ NO_UPER = {'T_Set'}     # asn1c has no PER/OER codec for SET (asn_OP_SET slots a
 # (type, uper) pairs are outside the type-level claim; their building blocks are checked as kernels.
 # OER extension additions go through oer_open_type_put (encode twice into a counting sink): 8 GB / > 15 min
 OER_TOO_COSTLY = {'T_SeqX'}
-UPER_TOO_COSTLY = {'T_Oid', 'T_Cho', 'T_SeqX', 'T_SeqX1', 'T_SeqOf', 'T_SetOf', 'T_Bits', 'T_OctU', 'T_Int', 'T_IntSemi', 'T_IntNeg', 'T_IntX'}
+UPER_TOO_COSTLY = {'T_Oid', 'T_Nest', 'T_Cho', 'T_SeqX', 'T_SeqX1', 'T_SeqOf', 'T_SetOf', 'T_Bits', 'T_OctU', 'T_Int', 'T_IntSemi', 'T_IntNeg', 'T_IntX'}
 HEAVY = {('T_Int', 'uper'), ('T_IntSemi', 'uper'), ('T_IntNeg', 'uper'), ('T_IntX', 'uper')}
 QUICK_TYPES = ['T_Seq', 'T_SeqX', 'T_SeqX1', 'T_Oid', 'T_Cho', 'T_SeqOf', 'T_Int', 'T_IntX', 'T_Oct', 'T_Bits']
 
